@@ -661,7 +661,21 @@ func (P *Program) computeEntryKinds(bs []*Builder) {
 				for _, cl := range p.Calls {
 					sc := cl.Call.Call.StaticCallee()
 					callee := byFn[sc]
-					if callee == nil || callee.TypParam == nil {
+					if callee == nil {
+						continue
+					}
+					if callee.TypParam == nil {
+						// a builder that does not look at the Go type at all builds its codec for whatever type
+						// its caller is building for at that point
+						k := any
+						if caller.TypParam != nil {
+							k = cl.State.kindsOf(caller.TypParam.Name()) & callerEntry(caller)
+						}
+						if callee.EntryK|k != callee.EntryK {
+							callee.EntryK |= k
+							callee.EntryFrom = append(callee.EntryFrom, fmt.Sprintf("%s (no type parameter) with %s", fnKey(caller.Fn), k))
+							changed = true
+						}
 						continue
 					}
 					// index of callee's typ param
